@@ -8,7 +8,7 @@ VERIF = os.path.abspath(os.path.join(os.path.dirname(os.path.abspath(__file__)),
 CORE_OPS = {"new", "clone", "clonef", "drop", "set", "clear", "mark", "collect", "unwrap", "fagain", "put", "take"}
 BASE = dict(N=3, NS=2, NP=0, NW=0, FIN=True, WEAK=True, DBG=True, MAXRC=16382, MAXWC=32767, MaxRoots=2, MaxWRoots=0,
             MaxOps=6, MaxFaults=0, MaxTraceK=0, BUG_STALE_TC=False, BUG_NESTED_FLAGS=False, OPS=CORE_OPS,
-            AUTOF=True, AUTO0=False, SZ=160, CLEAN=False, MaxActs=0, BUG_CLEAN_REENTRANT=False, RECORD=True)
+            AUTOF=True, AUTO0=False, SZ=160, CLEAN=False, MaxActs=0, BUG_CLEAN_REENTRANT=False, BUG_NESTED_DROP_FLAG=False, RECORD=True)
 
 
 def _eng(name, quick, thorough, builds, **kw):
@@ -65,6 +65,14 @@ ENGINES = {
     # deeper fault histories over two objects (stale marks / counters left by an unwound collection and what later operations do with them)
     'fault2': _eng('fault2', dict(N=2, NS=1, MaxOps=7, MaxFaults=1, MaxTraceK=3, OPS={"new", "clone", "drop", "set", "collect"}), dict(MaxOps=9),
                    {'quick': ['all-dev'], 'thorough': ['all-dev', 'all-rel']}),
+    # TLC simulation (random walks through the model, fixed seed) with every feature at once and bounds far beyond the exhaustive
+    # engines: deep mixed histories (cleaning actions + automatic collections + weak pointers + new_cyclic + one fault), each one
+    # replayed in lock-step; the monitor invariant is evaluated in every state of every walk
+    'sim': _eng('sim', dict(N=3, NS=1, NP=1, NW=1, MaxRoots=2, MaxWRoots=2, MaxOps=14, MaxFaults=1, MaxTraceK=2, AUTO0=True, CLEAN=True, MaxActs=2,
+                            OPS={"new", "newcyc", "wnew", "setcfg", "clone", "clonef", "drop", "set", "put", "take", "clear", "mark", "collect", "unwrap", "fagain",
+                                 "downgrade", "upgrade", "upgradef", "clonew", "dropw", "setw", "clearw", "register", "clean", "dropcl"}),
+                dict(MaxOps=20), {'quick': ['all-dev'], 'thorough': ['all-dev', 'all-rel']},
+                simulate={'quick': 'num=40', 'thorough': 'num=1000'}, depth={'quick': 80, 'thorough': 120}, workers=4),
     'faultnofin': _eng('faultnofin', dict(FIN=False, MaxOps=5, MaxFaults=1, MaxTraceK=3, OPS=CORE_OPS - {"fagain"}), dict(MaxOps=7), {'quick': ['nofin-rel'], 'thorough': ['nofin-dev', 'nofin-rel']}),
 }
 
@@ -123,24 +131,24 @@ def _check_engine_builds():
 
 _check_engine_builds()
 
-GRAPH_ENGINES = ['resur', 'fault2', 'core', 'pin', 'nofin', 'fault', 'faultnofin', 'weak', 'weaknofin', 'auto', 'cyc', 'sat', 'clean', 'cleanfault', 'cleanauto', 'cycnofin']
+GRAPH_ENGINES = ['resur', 'fault2', 'core', 'pin', 'nofin', 'fault', 'faultnofin', 'weak', 'weaknofin', 'auto', 'cyc', 'sat', 'clean', 'cleanfault', 'cleanauto', 'cycnofin', 'sim']
 
 # which engines decide which property (stage results are cached per tree, so properties share the work)
 PROP_ENGINES = {
-    'C01': ['resur', 'core', 'pin', 'nofin', 'fault', 'faultnofin', 'weak', 'cycnofin'],
-    'C02': ['resur', 'core', 'pin', 'nofin', 'weak'],
-    'C03': ['core', 'nofin', 'fault', 'weak', 'cyc'],
-    'C04': ['core', 'pin', 'fault', 'weak', 'sat', 'cycnofin'],
-    'C05': ['resur', 'core', 'nofin', 'fault', 'weak'],
-    'C06': ['live', 'resur', 'core', 'weak'],
-    'C07': ['fault', 'fault2', 'faultnofin', 'weaknofin', 'cleanfault', 'auto', 'cyc'],
-    'C08': ['weak', 'weaknofin', 'clean'],
-    'C09': ['weak', 'weaknofin', 'cyc', 'sat'],
-    'C10': ['clean', 'cleanfault', 'cleanauto'],
-    'C11': ['core', 'auto', 'weak', 'cyc'],
-    'C12': ['core', 'fault', 'clean', 'auto'],
+    'C01': ['resur', 'core', 'pin', 'nofin', 'fault', 'faultnofin', 'weak', 'cycnofin', 'sim'],
+    'C02': ['resur', 'core', 'pin', 'nofin', 'weak', 'sim'],
+    'C03': ['core', 'nofin', 'fault', 'weak', 'cyc', 'sim'],
+    'C04': ['core', 'pin', 'fault', 'weak', 'sat', 'cycnofin', 'sim'],
+    'C05': ['resur', 'core', 'nofin', 'fault', 'weak', 'sim'],
+    'C06': ['live', 'resur', 'core', 'weak', 'sim'],
+    'C07': ['fault', 'fault2', 'faultnofin', 'weaknofin', 'cleanfault', 'auto', 'cyc', 'sim'],
+    'C08': ['weak', 'weaknofin', 'clean', 'sim'],
+    'C09': ['weak', 'weaknofin', 'cyc', 'sat', 'sim'],
+    'C10': ['clean', 'cleanfault', 'cleanauto', 'sim'],
+    'C11': ['core', 'auto', 'weak', 'cyc', 'sim'],
+    'C12': ['core', 'fault', 'clean', 'auto', 'sim'],
     'C13': ['core', 'weak', 'cyc'],
-    'C14': ['cyc', 'cycnofin', 'auto'],
+    'C14': ['cyc', 'cycnofin', 'auto', 'sim'],
     'C15': ['auto'],
     'C16': ['sat'],
     'C20': ['core'],
